@@ -30,6 +30,12 @@ def gen_imf(rng):
             mb = [0.1 * 2 ** i for i in range(nc + 1)]
     N0 = rng.choice([1.0, 5e5, 10 ** rng.uniform(-2, 9)])
     ext = rng.choice(["zeros", "zeros", "ext", "raise"])
+    if rng.random() < 0.15:
+        # slopes (and sometimes breaks, N0) written as plain integers - the natural spelling of the exact slopes -1 and -2
+        a = [rng.choice([-1, -2, -3, 0, 1, -2]) for _ in range(nc)]
+        if rng.random() < 0.5:
+            mb = [2 ** i for i in range(nc + 1)]
+            N0 = rng.choice([1, 1000, 500000])
     return dict(a=a, mb=mb, N0=N0, ext=ext)
 
 
@@ -80,7 +86,8 @@ def run(chk):
     res = float(np.finfo(float).resolution)
     specs = [dict(a=[-0.5, -1.3, -2.5], mb=[0.1, 0.5, 1.0, 100.0], N0=5e5, ext="zeros"),
              dict(a=[-1.3, -2.3], mb=[0.1, 0.5, 100.0], N0=2.5e5, ext="ext"),
-             dict(a=[-1.0, -2.0, -1.0, -2.0], mb=[0.08, 0.5, 1.0, 8.0, 120.0], N0=1.0, ext="raise")]
+             dict(a=[-1.0, -2.0, -1.0, -2.0], mb=[0.08, 0.5, 1.0, 8.0, 120.0], N0=1.0, ext="raise"),
+             dict(a=[-2], mb=[1, 100], N0=1000, ext="zeros"), dict(a=[-1, -2], mb=[0.1, 1, 100], N0=5e5, ext="zeros")]
     specs += [gen_imf(rng) for _ in range(n)]
     exprs, meta = [], []
     for sp in specs:
